@@ -160,7 +160,11 @@ def check(report, tier, seed):
         for i, (args, inv, hk, lossy) in enumerate(cases):
             want = model.get("a%d" % i, ["?"])[0].split()
             try:
-                r = subprocess.run([cli.encode()] + [a.encode("utf-8", "surrogateescape") for a in args], capture_output=True, timeout=60, stdin=subprocess.DEVNULL)
+                # standard input matters only under -i (the prompt between cycles reads a line): nothing there, text,
+                # bytes that are not UTF-8 - none of it may change what the run does or how it is reported
+                stdin_bytes = b"".join(rng.choice([b"\n", b"\n", b"go on\n", b"\xff\xfe\n", b"caf\xe9\n", b"\x00\n", b"\r\n"]) for _ in range(rng.choice([0, 0, 1, 2, 5, 40])))
+                stdin_bytes += rng.choice([b"", b"", b"no newline", b"\xe9"])
+                r = subprocess.run([cli.encode()] + [a.encode("utf-8", "surrogateescape") for a in args], capture_output=True, timeout=60, input=stdin_bytes)
             except subprocess.TimeoutExpired:
                 report.violation("cli-hang", "no termination within 60 s: %r" % args, {"args": args})
                 continue
@@ -168,7 +172,7 @@ def check(report, tier, seed):
             final = any(m in out for m in ("halted in state", "timed out after", "error caused in state"))
             got = ("usage" if "Usage:" in out else "version" if "HCLRS version" in out else "syntaxok" if "syntax OK" in out
                    else "final" if final else "message" if err.strip() else "nothing")
-            rep = {"args": [a.replace(d, "<tmp>") for a in args], "exit": r.returncode, "stdout": out[-300:], "stderr": err[:300], "model": want}
+            rep = {"args": [a.replace(d, "<tmp>") for a in args], "stdin_hex": stdin_bytes.hex(), "exit": r.returncode, "stdout": out[-300:], "stderr": err[:300], "model": want}
             res["%s:%s" % (r.returncode, got)] += 1
             if want[0] != "exit":
                 continue
@@ -193,7 +197,7 @@ def check(report, tier, seed):
                     report.violation("cli-wrong-run", "error status not reported", rep)
     report.coverage["evaluations"] = len(cases)
     report.coverage["distinct_nontrivial"] = len(set(tuple(a) for a, _, _, _ in cases))
-    report.coverage["rule"] = ("argument vectors: random subsets of the ten options in short, long and combined (-dq) spellings, unknown, doubled, abbreviated and valued ones, a lone -, the empty string, one-letter long names, arguments that are not valid UTF-8, the -- terminator, around 0-4 positionals; HCL file valid (halting, running "
+    report.coverage["rule"] = ("argument vectors: random subsets of the ten options in short, long and combined (-dq) spellings, unknown, doubled, abbreviated and valued ones, a lone -, the empty string, one-letter long names, arguments that are not valid UTF-8, the -- terminator, around 0-4 positionals; standard input empty, lines of text, lines that are not UTF-8 (read only by the -i prompt); HCL file valid (halting, running "
                                "forever, error status, aborting with division by zero), rejected or missing; image valid, missing, wrong extension, unloadable, "
                                "not UTF-8; timeouts absent 0 1 3 9999 2^32-1 2^32 -1 abc '' +5 007 '1 ' 10^20; the real binary's exit status and outcome class "
                                "(usage / version / syntax OK / final state / message) against Cli.main_model, and the printed cycle counts against the timeout")
